@@ -83,7 +83,7 @@ def register(claim, not_yet):
           'Proved for arbitrary band contents, all band lengths and filter lengths: sfb1d in modes zero/symmetric/reflect/periodic (two transposed stride-2 convolutions cropped by L-2) equals '
           'pywt.idwt; periodization synthesis (one fold + roll) equals pywt.idwt whenever L-2 <= 2n (the complement is the known finding); the J-level DWT1DInverse (un-pad rule, None levels) equals '
           'pywt.waverec, and the J-level 2-D DWTInverse (one level = pywt.idwt2 with (column wavelet, row wavelet); un-pad rule on both axes, None levels) equals pywt.waverec2, by induction on the '
-          'pyramid. The C-channel lifting in 2-D is decided by the exact correspondence (sfb1d, SFB1D, SFB2D, sfb2d, DWT1DInverse, '
+          'pyramid. EVERY CHANNEL COUNT in 2-D: on stacks of C channels sharing their shapes, every channel of SFB2D.forward is idwt2 of that channel and every channel of the J-level DWTInverse is waverec2 of that channel alone, None levels and the un-pad rule (decided once from the common shape) included (C10M.SFB2D_forward_multi, step_eqM, DWTInverse_multi_eq_waverec2). The batch axis is decided by the exact correspondence (sfb1d, SFB1D, SFB2D, sfb2d, DWT1DInverse, '
           'DWTInverse with None) and by the pywt.waverec/waverec2 oracle on arbitrary pyramids; short periodization is a known finding.' + TIE + BRK,
           'Lean 4 refinement theorem (synthesis = pywt idwt) + exact correspondence + pywt oracle on arbitrary pyramids', 'DESIGN.md §4 C10')
     claim('C11',
